@@ -193,7 +193,7 @@ def run_case(case):
     if o is None:
         return res
     tname = type(o).__qualname__
-    fam_ops = c01.FAM[key[0]][1] if key[0] != "extra" else {}
+    fam_ops = c02._fam(key[0])[1] if key[0] != "extra" else {}
     res.nontrivial = 1
     o0 = obs(o)
     res.states.append(h64(repr(key)))
